@@ -42,11 +42,11 @@ def handle (c : Case) : Verdict :=
       { corr := false, spec := false, nontrivial, branch, model, why := "malformed observation" }
     else if race != "none" then
       { corr := false, spec := false, nontrivial, branch, model := "race=none same=1",
-        why := s!"ThreadSanitizer report ({race}) at {field c "at"}" }
+        why := s!"ThreadSanitizer report: {race}" }
     else
       let agree := same == "1" && seq != "" && conc == seq && ops == toString (n * len)
       { corr := agree, spec := same == "1", nontrivial, branch, model,
         why := if same == "1" then (if agree then "" else "digests / operation count inconsistent")
-               else s!"a thread's results differ from its results when run alone (first difference {field c "first"})" }
+               else "a thread's results differ from the results it obtains when run alone" }
 
 end Driver.Conc
